@@ -50,6 +50,7 @@ State st;
 void enqueue_job(int id);
 
 void job_body(int id) {
+    vsched::obs("job-start");
     SCHED_CHECK(st.started[id] == 0, "C10/executed-twice", "job " << id << " started a second time");
     st.started[id]++;
     const JobSpec& js = st.jobs[(size_t)id];
@@ -59,6 +60,7 @@ void job_body(int id) {
         st.terminate_called = true;
         st.pool->terminate();
     }
+    vsched::obs("job-end");
     st.effect[id] = id + 1; // plain write: must be visible to a waiter after loop_until_empty
     st.finished[id]++;
 }
@@ -66,6 +68,7 @@ void job_body(int id) {
 void enqueue_job(int id) {
     st.enq_called[id] = true;
     st.pool->enqueue([id]() { job_body(id); });
+    vsched::obs("enqueue-returned");
     st.enq_returned[id] = true;
 }
 
@@ -105,12 +108,14 @@ void mark_closure(int id, std::vector<char>& must) {
 
 //! loop_until_empty with the quiescence oracle. closed = nobody but this thread and jobs can enqueue now.
 void wait_empty_checked(bool closed, const char* who) {
+    vsched::obs("wait-begin");
     std::vector<char> must(st.jobs.size(), 0);
     for (size_t j = 0; j < st.jobs.size(); ++j)
         if (st.enq_returned[j]) mark_closure((int)j, must);
     vsched::note("loop_until_empty");
     st.pool->loop_until_empty();
     vsched::note("");
+    vsched::obs("wait-returned");
     if (st.terminate_called) return; // terminated pools may leave jobs unexecuted
     size_t done_now = st.pool->done();
     int finished_total = 0;
@@ -135,6 +140,7 @@ void wait_terminate_checked(const char* who) {
     vsched::note("loop_until_terminate");
     st.pool->loop_until_terminate();
     vsched::note("");
+    vsched::obs("wait-returned");
     SCHED_CHECK(st.terminate_called, "C10/terminate-wait-returned-early", who << ": loop_until_terminate returned without terminate()");
 }
 
